@@ -151,6 +151,7 @@ type State struct {
 	PktGone  bool                    // packet pointers invalidated by a helper
 	Trace    []Event                 // Paths mode only
 	PathCond []string                // Paths mode only
+	Atoms    []Atom                  // Paths mode only: structured form of PathCond
 	dead     bool
 }
 
@@ -186,6 +187,7 @@ func (s *State) clone() *State {
 	n.PktGone = s.PktGone
 	n.Trace = append([]Event(nil), s.Trace...)
 	n.PathCond = append([]string(nil), s.PathCond...)
+	n.Atoms = append([]Atom(nil), s.Atoms...)
 	return n
 }
 
@@ -584,3 +586,27 @@ func max64(a, b int64) int64 {
 	}
 	return b
 }
+
+// Atom is one undecided branch condition a path went through: (L Op R) == Holds.
+type Atom struct {
+	Op     string // == != < <= > >= nz
+	L, R   string // operand renderings: provenance (pkt:…, map:…, nonnull:<region>) or a decimal constant
+	LC, RC *int64 // constant operands
+	Holds  bool
+	Node   string // position
+}
+
+func (a Atom) String() string {
+	s := a.L + " " + a.Op + " " + a.R
+	if a.Op == "nz" {
+		s = a.L
+	}
+	if !a.Holds {
+		return "!(" + s + ")"
+	}
+	return s
+}
+
+// Facts exposes the packet-length knowledge of a state: Prove(len <= k) / Prove(len >= k).
+func (s *State) ProvesLenAtMost(k int64) bool { return s.Prove(lin.Const(k).Sub(lin.Var(0))) }
+func (s *State) ProvesLenAtLeast(k int64) bool { return s.Prove(lin.Var(0).AddK(-k)) }
